@@ -99,6 +99,10 @@ type PartialCert struct {
 // NewPartialCert returns a new partial certificate.
 func NewPartialCert(signature QuorumSignature, blockHash Hash) PartialCert {
 	var signer ID
+	if signature == nil {
+		// a vote decoded from the wire may lack a signature; it is rejected at verification
+		return PartialCert{signer, signature, blockHash}
+	}
 	signature.Participants().RangeWhile(func(i ID) bool {
 		signer = i
 		return false
